@@ -4,6 +4,7 @@
    -> llgo builds the same source in each configuration -> every case's output must equal the prediction."""
 import json
 import os
+import shutil
 import re
 from concurrent.futures import ThreadPoolExecutor
 
@@ -243,7 +244,19 @@ def run_cases(chk, prop, profile, ncases, per_bundle, configs, sd, label, split_
             for (opt, tags), o in outs.items():
                 if o[0] == "buildfail":
                     if opt == "O0":
-                        raise C.Undecided("llgo cannot build a generated bundle:\n" + o[1][-3000:])
+                        # not a verdict (a crash of LLVM 14 in this sandbox cannot be told from invalid IR emitted by llgo),
+                        # but name the single case so that it can be looked at
+                        lo = list(b)
+                        while len(lo) > 1:
+                            h = len(lo) // 2
+                            dd = os.path.join(rd, "%s-bisect" % label)
+                            shutil.rmtree(dd, ignore_errors=True)
+                            C.write_module(dd, bundle_sources(lo[:h]), modname="gmb")
+                            ok1, _ = C.llgo_build(dd, os.path.join(dd, "x.exe"), opt=opt, tags=tags, rundir=dd)
+                            lo = lo[:h] if not ok1 else lo[h:]
+                        head = "\n".join(l for l in o[1].splitlines()[:12])
+                        raise C.Undecided("llgo cannot build a generated bundle; smallest failing part: case %s (features %s)\n%s\n...\n%s"
+                                          % (lo[0][0], lo[0][1]["features"], head, o[1][-1500:]))
                     chk.cov.setdefault("skipped_configs", []).append("%s%s bundle %d" % (opt, tags, bi))
                     continue
                 got, died = o
